@@ -113,6 +113,7 @@ PROPS = {
         title='Contradictory, ambiguous or misplaced attributes are rejected, not guessed',
         theorems=[],
         streams=[stream('invalid', 'outcome', faults=0.9, n=(4000, 60000))],
+        direct=('c13', (5000, 80000)),
     ),
     'C14': dict(
         title='Alternative attribute spellings are interchangeable',
